@@ -283,6 +283,28 @@ func c04Values(r *eng.Run) {
 		}
 		count("1b:leading-zero fractions", n)
 	})
+	// digit strings round every power of five (the multiprecision fallback decides how many digits
+	// a binary shift adds by comparing with the digits of 5^k): 5^k + {-2..2, 26, 27} behind 0..14
+	// leading zeros, as a fraction and as an integer with a negative exponent
+	eng.Parallel(60, func(i int) {
+		k := i + 1
+		p5 := new(big.Int).Exp(big.NewInt(5), big.NewInt(int64(k)), nil)
+		n := 0
+		for _, dl := range []int64{-2, -1, 0, 1, 2, 26, 27} {
+			d := new(big.Int).Add(p5, big.NewInt(dl))
+			if d.Sign() <= 0 {
+				continue
+			}
+			ds := d.String()
+			for z := 0; z <= 14; z++ {
+				one("0."+strings.Repeat("0", z)+ds, "power-of-five-prefixes")
+				one("-0."+strings.Repeat("0", z)+ds+"00000000000000000001", "power-of-five-prefixes")
+				one(ds+"e-"+strconv.Itoa(z+len(ds)), "power-of-five-prefixes")
+				n += 3
+			}
+		}
+		count("1h:power-of-five digit prefixes", n)
+	})
 	// family 2: binades x boundary mantissas x textual variants
 	mants := []uint64{0, 1, 2, 1 << 51, 1<<52 - 2, 1<<52 - 1, 0x5555555555555, 0xAAAAAAAAAAAAA}
 	if !r.Thorough() {
@@ -492,6 +514,17 @@ func c04Audit(r *eng.Run) {
 	// deviating row and report only those.
 	found := 0
 	for _, l := range strings.Split(out, "\n") {
+		if strings.HasPrefix(l, "AUDIT-MISMATCH leftcheats[") {
+			if w := cheatWitness(l); w != "" {
+				found++
+				var bad, exp, got string
+				if pan := guard(func() { bad, _, exp, got = checkFloat([]byte(w), nil) }); pan != "" {
+					bad, exp, got = "ReadFloat64/panic", "returns normally", pan
+				}
+				r.Violation(eng.Replay{Engine: "num", Entry: "ReadFloat64", Sig: fmt.Sprintf("%s/cheat-table/%s", bad, w), InputB64: []byte(w), Expected: exp, Got: got, Extra: map[string]interface{}{"audit": l}})
+				continue
+			}
+		}
 		if !strings.HasPrefix(l, "AUDIT-MISMATCH detailedPowersOfTen[1e") {
 			if strings.HasPrefix(l, "AUDIT-MISMATCH") {
 				r.Note("table audit: %s", l)
@@ -512,6 +545,35 @@ func c04Audit(r *eng.Run) {
 	if found < mism {
 		r.Inexhaustive("table words deviate from their definition but no misrounded literal was found for some of them")
 	}
+}
+
+// cheatWitness searches a literal the implementation gets wrong for a deviating row of the
+// left-shift table: digit strings round the recorded and the true cutoff behind 0..40 zeros.
+func cheatWitness(line string) string {
+	var k, d1, d2 int
+	var c1, c2 string
+	line = strings.NewReplacer("{", " ", "}", " ", ",", " ").Replace(line)
+	if n, _ := fmt.Sscanf(line, "AUDIT-MISMATCH leftcheats[%d] =  %d %s  want  %d %s", &k, &d1, &c1, &d2, &c2); n < 5 {
+		return ""
+	}
+	for _, c := range []string{c1, c2} {
+		b, ok := new(big.Int).SetString(c, 10)
+		if !ok {
+			continue
+		}
+		for _, dl := range []int64{0, -1, 1, -2, 2} {
+			ds := new(big.Int).Add(b, big.NewInt(dl)).String()
+			for z := 0; z <= 40; z++ {
+				for _, lit := range []string{"0." + strings.Repeat("0", z) + ds, "0." + strings.Repeat("0", z) + ds + "00000000000000000001", ds + "e-" + strconv.Itoa(z+len(ds)), ds + strings.Repeat("0", z) + "00000000000000000001"} {
+					bad := ""
+					if pan := guard(func() { bad, _, _, _ = checkFloat([]byte(lit), nil) }); pan != "" || bad != "" {
+						return lit
+					}
+				}
+			}
+		}
+	}
+	return ""
 }
 
 // auditWitness searches mantissas for a literal m x 10^q that the implementation misrounds.
